@@ -741,3 +741,35 @@ def _vec_retain(eng, st, args, ci):
 def Forks(alts):
     from .engine import Forks as F
     return F(alts)
+
+
+# ---------------------------------------------------------------- strings (equality only; contents are symbolic elements of sort Str)
+
+_STR_CONSTS = {}
+
+
+def str_expr(v):
+    """z3 term of sort Str for a StrVal (concrete strings map to distinct named constants)"""
+    from .engine import StrSort
+    if v.e is not None:
+        return v.e
+    if v.s not in _STR_CONSTS:
+        _STR_CONSTS[v.s] = z3.Const('strlit:%d' % len(_STR_CONSTS), StrSort)
+    return _STR_CONSTS[v.s]
+
+
+def str_distinct_axioms():
+    vs = list(_STR_CONSTS.values())
+    return [z3.Distinct(*vs)] if len(vs) > 1 else []
+
+
+@intrinsic(r'^<&?&?(str|std::string::String) as (std::cmp::)?PartialEq(<&?&?(str|std::string::String)>)?>::(eq|ne)$', 'str PartialEq (equality of uninterpreted string values)')
+def _str_eq(eng, st, args, ci):
+    a, b = (_deref_arg(eng, st, x) for x in args)
+    if not (isinstance(a, StrVal) and isinstance(b, StrVal)):
+        raise Unsupported('str eq on %r %r' % (a, b))
+    if a.s is not None and b.s is not None:
+        r = z3.BoolVal(a.s == b.s)
+    else:
+        r = str_expr(a) == str_expr(b)
+    return r if ci.func.endswith('::eq') else z3.Not(r)
